@@ -115,6 +115,46 @@ impl PhysicalOperator for UnionExec {
             .then(|(input, p)| async move { input.execute(p).await })
             .try_flatten();
 
-        Ok(Box::pin(chained))
+        // Every branch's batches leave under the UNION's column names (the
+        // first branch's): `SELECT a FROM t UNION ALL VALUES (1)` returned
+        // batches named `a` and batches named `column0` in one result.
+        let names: Vec<String> = self
+            .schema
+            .fields()
+            .iter()
+            .map(|f| f.name().clone())
+            .collect();
+        let relabelled = chained.and_then(move |batch| {
+            let names = names.clone();
+            async move {
+                let same = batch.num_columns() != names.len()
+                    || batch
+                        .schema()
+                        .fields()
+                        .iter()
+                        .zip(names.iter())
+                        .all(|(f, n)| f.name() == n);
+                if same {
+                    return Ok(batch);
+                }
+                let fields: Vec<arrow::datatypes::Field> = batch
+                    .schema()
+                    .fields()
+                    .iter()
+                    .zip(names.iter())
+                    .map(|(f, n)| f.as_ref().clone().with_name(n.clone()))
+                    .collect();
+                let options = arrow::record_batch::RecordBatchOptions::new()
+                    .with_row_count(Some(batch.num_rows()));
+                arrow::record_batch::RecordBatch::try_new_with_options(
+                    std::sync::Arc::new(arrow::datatypes::Schema::new(fields)),
+                    batch.columns().to_vec(),
+                    &options,
+                )
+                .map_err(Into::into)
+            }
+        });
+
+        Ok(Box::pin(relabelled))
     }
 }
